@@ -19,7 +19,7 @@ ORACLE = ('SHA-256 of every bundle\'s full reply (stored, undo, direct, retValue
 ASSUMPTIONS = ['generated formulas do not iterate over Python sets and use no time/randomness (user-level nondeterminism)',
                'the history is generated against the hash-seed-0 engine; children replay the same concrete user actions']
 BUDGET = {'quick': dict(examples=320, shards=16, max_seconds=55),
-          'thorough': dict(examples=10000, shards=16, max_seconds=900)}
+          'thorough': dict(examples=3600, shards=16, max_seconds=1800)}
 SHRINK_BUDGET = {'quick': 30, 'thorough': 200}
 
 _children = {}
